@@ -4,10 +4,14 @@ pub fn allocate<T>(num: usize) -> *mut T {
     let vec = Vec::<T>::with_capacity(num);
     let rptr = vec.as_ptr();
     mem::forget(vec);
+    #[cfg(feature = "multiqueue2_verif")]
+    crate::verif_hooks::on_allocate(rptr as usize, num, mem::size_of::<T>());
     rptr as *mut T
 }
 
 pub fn deallocate<T>(tofree: *mut T, num: usize) {
+    #[cfg(feature = "multiqueue2_verif")]
+    crate::verif_hooks::on_deallocate(tofree as usize, num, mem::size_of::<T>());
     unsafe {
         Vec::from_raw_parts(tofree, 0, num);
     }
